@@ -397,5 +397,43 @@ theorem prepare_spec (r : Ring) (h : r.WF) (n : Nat) :
   · rw [if_neg hn]
     exact ⟨r, _, rfl, hwf, rfl, rfl, by omega, rfl⟩
 
+theorem setSrc_some' (bs : List Byte) : setSrc bs.length (some bs) = bs := by
+  unfold setSrc; simp
+
+/-- `io::queue::push`: accepted and appended, except an empty push onto a queue that has no free byte -/
+theorem xpush_spec (r : Ring) (h : r.WF) (bytes : List Byte) :
+    ∃ r' b, r.xpush bytes = .ok (r', b) ∧ r'.WF ∧
+      (b = true → r'.content = r.content ++ bytes) ∧ (b = false → r'.content = r.content ∧ bytes = []) := by
+  obtain ⟨r1, left, he, hw1, hc1, hl, hn, hlen⟩ := prepare_spec r h bytes.length
+  unfold xpush
+  rw [he]
+  simp only []
+  by_cases hfull : r1.len < r1.store.length
+  · obtain ⟨r2, c, he2, hw2, hl2, hc2⟩ := qpush_ok r1 hw1 bytes.length (some bytes) hfull (by omega)
+    rw [he2]
+    refine ⟨r2, true, rfl, hw2, fun _ => ?_, fun hf => Bool.noConfusion hf⟩
+    rw [hc2, hc1, setSrc_some']
+  · rw [qpush_refused r1 hw1 bytes.length (some bytes) (Or.inr (by have := hw1.1; omega))]
+    refine ⟨r1, false, rfl, hw1, fun hf => Bool.noConfusion hf, fun _ => ⟨hc1, ?_⟩⟩
+    have : bytes.length = 0 := by omega
+    exact List.eq_nil_of_length_eq_zero this
+
+theorem xunshift_spec (r : Ring) (h : r.WF) (bytes : List Byte) :
+    ∃ r' b, r.xunshift bytes = .ok (r', b) ∧ r'.WF ∧
+      (b = true → r'.content = bytes ++ r.content) ∧ (b = false → r'.content = r.content ∧ bytes = []) := by
+  obtain ⟨r1, left, he, hw1, hc1, hl, hn, hlen⟩ := prepare_spec r h bytes.length
+  unfold xunshift
+  rw [he]
+  simp only []
+  by_cases hfull : r1.len < r1.store.length
+  · obtain ⟨r2, c, he2, hw2, hl2, hc2⟩ := qunshift_ok r1 hw1 bytes.length (some bytes) hfull (by omega)
+    rw [he2]
+    refine ⟨r2, true, rfl, hw2, fun _ => ?_, fun hf => Bool.noConfusion hf⟩
+    rw [hc2, hc1, setSrc_some']
+  · rw [qunshift_refused r1 hw1 bytes.length (some bytes) (Or.inr (by have := hw1.1; omega))]
+    refine ⟨r1, false, rfl, hw1, fun hf => Bool.noConfusion hf, fun _ => ⟨hc1, ?_⟩⟩
+    have : bytes.length = 0 := by omega
+    exact List.eq_nil_of_length_eq_zero this
+
 end Ring
 end Mpt
